@@ -195,6 +195,8 @@ def calc(ctx, kind, det, sc, th='auto', optics=None, scaling=None,
     if isinstance(th, dict) and 'kind' in th:
         theo = make_theory(ctx, th['kind'], th.get('options'),
                            th.get('inner'))
+    elif isinstance(th, dict) and 'of_model' in th:
+        theo = val(ctx, th['of_model']).theory
     else:
         theo = theory_arg(ctx, th)
     kw = optics_kwargs(ctx, optics)
